@@ -4,11 +4,15 @@
    every list of rows with arbitrary byte contents, the decoder's row pipeline (Model/Pipeline.v, proved equal to the specification in C01) applied
    to the scanline stream produced by the model of the encoder's row loop (each row filtered against the previous INPUT row, a zero row first)
    returns exactly the rows, with nothing left over - for both Paeth predictor selections; and the encoder never refuses well-shaped rows.
-   The stream writer's row buffering makes the rows handed to the filter independent of how the pixel bytes are split over write() calls; that,
-   the chunk writer and write_all over short-writing sinks are tied by the correspondence (write partitions, buffer sizes 1..4096, sinks accepting
-   1..10 bytes), not proved.  Compression: fdeflate / flate2 are inverse to the decoder's inflater by contract (checked on every run through an
+   THE STREAM WRITER (still images, Model/StreamWriterBuf.v, Proofs/StreamWriterProofs.v): however the caller cuts the image into write calls, the
+   compressor is handed exactly the scanline stream of the whole-image path (C03_stream_writer_any_split: the scanline assembly of
+   StreamWriter::write is cut-invariant), and whatever the bursts in which the compressor writes its output, the IDAT chunks that reach the sink are
+   that output cut into pieces of the chunk size - together the data, none empty, none longer, all but the last full
+   (C03_chunk_layer_any_bursts and the three lemmas on chunks_of).  Both layers are tied to the crate call by call: the bytes every
+   StreamWriter::write accepts and the inflated IDAT stream, and - through a hook - every ChunkWriter::write / flush result and every emitted chunk.
+   write_all over short-writing sinks is tied by the correspondence only (sinks accepting 1..10 bytes).  Compression: fdeflate / flate2 are inverse to the decoder's inflater by contract (checked on every run through an
    independent inflater that requires the stream to end exactly). *)
-From PngV Require Import Base.Bytes Spec.FilterSpec Gen.GenPaeth Model.Filter Proofs.PaethProofs Proofs.FilterProofs Proofs.FilterEncProofs Model.Pipeline Proofs.PipelineProofs Model.EncodePipeline Proofs.EncodePipelineProofs.
+From PngV Require Import Base.Bytes Spec.FilterSpec Gen.GenPaeth Model.Filter Proofs.PaethProofs Proofs.FilterProofs Proofs.FilterEncProofs Model.Pipeline Proofs.PipelineProofs Model.EncodePipeline Proofs.EncodePipelineProofs Model.StreamWriterBuf Proofs.StreamWriterProofs.
 
 (* the round trip, any predictor equal to the specification's on bytes (both compiled selections are: C14_paeth_all_paths) *)
 Theorem C03_encode_then_decode_rows_is_identity :
@@ -58,11 +62,107 @@ Theorem C03_filter_choice_is_total :
        bytes_ok cur -> exists (rf : ftype) (out : list Z), filter_model m bpp prev cur = Some (rf, out).
 Proof. exact filter_model_total. Qed.
 
+(* the stream writer: for every way of cutting the image bytes into write_all calls the compressor gets the stream of the whole-image path, the frame is complete and no partial scanline is left *)
+Theorem C03_stream_writer_any_split :
+  forall (m : fmethod) (bpp line : nat) (rows pieces : list (list Z)),
+       (0 < line)%nat ->
+       Forall (fun r : list Z => length r = line) rows ->
+       concat pieces = concat rows ->
+       sw_run m bpp (sw_init line (length rows)) pieces =
+       match encode_image m bpp line rows with
+       | Some out =>
+           Some ({| sw_prev := last rows (zeros line); sw_cur := []; sw_line := line; sw_left := 0 |}, out)
+       | None => None
+       end.
+Proof. exact stream_writer_any_split. Qed.
+
+(* write_all(p) then write_all(q) is write_all(p ++ q), from every state that satisfies the invariant *)
+Theorem C03_stream_writer_calls_are_cut_invariant :
+  forall (m : fmethod) (bpp f : nat) (p q : list Z) (s : swst),
+       sw_inv s ->
+       (length p + length q < f)%nat ->
+       sw_write_all f m bpp s (p ++ q) =
+       match sw_write_all f m bpp s p with
+       | Some (s1, o1) =>
+           match sw_write_all f m bpp s1 q with
+           | Some (s2, o2) => Some (s2, o1 ++ o2)
+           | None => None
+           end
+       | None => None
+       end.
+Proof. exact sw_all_app. Qed.
+
+(* a complete still image takes no further data (sequence validation on) *)
+Theorem C03_stream_writer_refuses_data_beyond_the_image :
+  forall (m : fmethod) (bpp : nat) (s : swst) (d : list Z) (f : nat),
+       sw_left s = 0%nat -> d <> [] -> sw_write_all (S f) m bpp s d = None.
+Proof. exact stream_writer_refuses_data_beyond_the_image. Qed.
+
+(* the chunk layer: whatever the bursts of the compressor, the IDAT chunks are its output cut into pieces of the chunk size *)
+Theorem C03_chunk_layer_any_bursts :
+  forall (cap : nat) (bursts : list (list Z)),
+       (0 < cap)%nat ->
+       cw_run {| cw_cap := cap; cw_buf := [] |} bursts =
+       Some (chunks_of (length (concat bursts)) cap (concat bursts)).
+Proof. exact chunk_writer_any_bursts. Qed.
+
+(* write_all(p) then write_all(q) is write_all(p ++ q) for the chunk layer, from every state with room in the buffer *)
+Theorem C03_chunk_layer_calls_are_cut_invariant :
+  forall (f : nat) (p q : list Z) (s : cwst),
+       cw_inv s ->
+       (length p + length q < f)%nat ->
+       cw_write_all f s (p ++ q) =
+       match cw_write_all f s p with
+       | Some (s1, c1) =>
+           match cw_write_all f s1 q with
+           | Some (s2, c2) => Some (s2, c1 ++ c2)
+           | None => None
+           end
+       | None => None
+       end.
+Proof. exact cw_all_app. Qed.
+
+(* the chunks concatenated are the data *)
+Theorem C03_chunks_together_are_the_data :
+  forall (fuel cap : nat) (l : list Z),
+       (0 < cap)%nat -> (length l <= fuel)%nat -> concat (chunks_of fuel cap l) = l.
+Proof. exact chunks_concat. Qed.
+
+(* no chunk is empty, none is longer than the chunk size *)
+Theorem C03_chunks_are_never_empty_nor_too_long :
+  forall (fuel cap : nat) (l : list Z),
+       (0 < cap)%nat ->
+       (length l <= fuel)%nat -> Forall (fun c : list Z => (1 <= length c <= cap)%nat) (chunks_of fuel cap l).
+Proof. exact chunks_sizes. Qed.
+
+(* every chunk that is followed by another one is full *)
+Theorem C03_all_chunks_but_the_last_are_full :
+  forall (fuel cap : nat) (l c : list Z) (cs : list (list Z)),
+       (0 < cap)%nat ->
+       (length l <= fuel)%nat -> chunks_of fuel cap l = c :: cs -> cs <> [] -> length c = cap.
+Proof. exact chunks_all_but_last_full. Qed.
+
 Example C03_nonvacuous :
   encode_image MAdaptive 2 4 [[10; 20; 30; 40]; [11; 19; 33; 37]] = Some [4; 10; 20; 20; 20; 4; 1; 255; 3; 253]
   /\ unfilter_rows filter_paeth_decode_x86_64 2 4 2 [] [4; 10; 20; 20; 20; 4; 1; 255; 3; 253] = Ok ([[10; 20; 30; 40]; [11; 19; 33; 37]], []).
 Proof. vm_compute. split; reflexivity. Qed.
+
+(* non-vacuity for the stream writer layers: a 2x2 image (2-byte rows, filter None) written as 1 + 3 bytes, and 7 compressed bytes arriving in
+   bursts of 2, 4 and 1 at a 3-byte chunk buffer *)
+Example C03_stream_writer_demo :
+  sw_run (MFixed FNone) 1 (sw_init 2 2) [[10]; [11; 12; 13]] = Some (mk_sw [12; 13] [] 2 0, [0; 10; 11; 0; 12; 13]).
+Proof. vm_compute. reflexivity. Qed.
+Example C03_chunk_layer_demo : cw_run (mk_cw 3 []) [[1; 2]; [3; 4; 5; 6]; [7]] = Some [[1; 2; 3]; [4; 5; 6]; [7]].
+Proof. exact chunk_writer_demo. Qed.
 Print Assumptions C03_encode_then_decode_rows_is_identity.
 Print Assumptions C03_later_rows_round_trip.
 Print Assumptions C03_encoder_never_refuses.
 Print Assumptions C03_filter_choice_is_total.
+Print Assumptions C03_stream_writer_any_split.
+Print Assumptions C03_stream_writer_calls_are_cut_invariant.
+Print Assumptions C03_stream_writer_refuses_data_beyond_the_image.
+Print Assumptions C03_chunk_layer_any_bursts.
+Print Assumptions C03_chunk_layer_calls_are_cut_invariant.
+Print Assumptions C03_chunks_together_are_the_data.
+Print Assumptions C03_chunks_are_never_empty_nor_too_long.
+Print Assumptions C03_all_chunks_but_the_last_are_full.
